@@ -124,6 +124,18 @@ fn build(toks: &[&str], log: &Log) -> (C, bool) {
     "sieve" => b.cache_policy_factory(|| Box::new(fibre_cache::policy::sieve::SievePolicy::<u64>::new()) as Box<dyn CachePolicy<u64, u64>>),
     "clock" => b.cache_policy_factory(|| Box::new(fibre_cache::policy::clock::ClockPolicy::<u64>::new()) as Box<dyn CachePolicy<u64, u64>>),
     "null" => b.null_policy(),
+    // policies outside the Coq model (engine cache.adm, model-free): per-shard capacity as the builder's
+    // own default does it; "tinylfu" IS the builder default (no factory)
+    "tinylfu" => b,
+    "arc" => {
+      let per = ((cap as f64 / num(toks[1]).max(1) as f64).ceil() as usize).max(1);
+      b.cache_policy_factory(move || Box::new(fibre_cache::policy::arc::ArcPolicy::<u64>::new(per)) as Box<dyn CachePolicy<u64, u64>>)
+    }
+    "slru" => {
+      let per = ((cap as f64 / num(toks[1]).max(1) as f64).ceil() as u64).max(1);
+      b.cache_policy_factory(move || Box::new(fibre_cache::policy::slru::SlruPolicy::<u64>::new(per)) as Box<dyn CachePolicy<u64, u64>>)
+    }
+    "random" => b.cache_policy_factory(|| Box::new(fibre_cache::policy::random::RandomPolicy::<u64>::new()) as Box<dyn CachePolicy<u64, u64>>),
     p => panic!("unknown policy {p}"),
   };
   (b.build().expect("build"), listener)
@@ -279,6 +291,18 @@ fn run(toks: &[&str]) -> String {
       "a" => {
         fibre_cache::verif_time::advance(Duration::from_nanos(num(t[1])));
         (2, "ok".to_string())
+      }
+      // scan (engine cache.adm): current_cost and the residents among keys 0..N-1, by peek (no side effects)
+      "s" => {
+        let n = num(t[1]);
+        let cc = cache.metrics().current_cost;
+        let mut res: Vec<String> = Vec::new();
+        for k in 0..n {
+          if let Some(v) = cache.peek(&k) {
+            res.push(format!("{}:{}", k, *v));
+          }
+        }
+        (2, format!("c={}|{}", cc, res.join(",")))
       }
       "y" => {
         let v = num(t[1]);
